@@ -429,13 +429,15 @@ def h_isinstance(it, v, cls):
     if hasattr(v, "_pyvc_isinstance"):
         return v._pyvc_isinstance(classes)
     if is_sym(v):
-        if z3.is_bool(v):
-            return any(c in (bool, int, object) for c in classes)
-        if z3.is_int(v):
-            return any(c in (int, object) for c in classes)
-        if z3.is_real(v):
-            return any(c in (float, object) for c in classes)
-        raise Undecided("isinstance of term")
+        # a term stands for a python bool / int / float: abstract base classes (numbers.Integral, numbers.Real ...)
+        # answer as they do for those types
+        py = bool if z3.is_bool(v) else int if z3.is_int(v) else float if z3.is_real(v) else None
+        if py is None:
+            raise Undecided("isinstance of term")
+        try:
+            return any(isinstance(c, type) and issubclass(py, c) for c in classes)
+        except TypeError:
+            raise Undecided("isinstance of a term against a non-class")
     if isinstance(v, (Closure, BoundMethod)):
         return False
     return isinstance(v, classes)
